@@ -10,8 +10,10 @@ RULE = ("cases = (kernel expression tree, point sets X, Y); generated from the C
         "coordinates up to 1e2); distinct = distinct (tree, data) hash; non-trivial = at least one pair of rows whose "
         "kernel value is neither 0 nor 1 and tree width >= 1")
 PARTIAL = ["strict positivity k>0 is a real-number statement: float64 underflows to 0 for r >~ 38 (checked as k >= 0)",
-           "Gram PSD of the five stationary kernels and of products/powers is the hypothesis PSDKernel in Lean "
-           "(proved for Linear and non-negative combinations); exercised numerically here (eigvalsh)"]
+           "Gram PSD is proved in Lean for ExpQuad and Linear leaves and for every expression over PSD leaves (sums, "
+           "products by the Schur product theorem, natural powers, non-negative scalars, active_dims): gram_psd_of_tree; for "
+           "the Matern 3/2, 5/2, Exponential and RatQuad leaves (Bochner) and non-integer powers it is a named hypothesis, "
+           "exercised numerically here (eigvalsh)"]
 ASSUMPTIONS = ["JAX/XLA float64 evaluation of the kernels is compared with the model within the cancellation interval "
                "of xx-2xy+yy (covoracle.py)"]
 
@@ -231,11 +233,13 @@ CLAIM = {
     "text": "Lean theorems over R for every kernel expression tree, active-dims form and point: closed forms of the six "
             "kernels, symmetry (induction over the tree), values of stationary kernels in (0,1], self-covariance bounds, "
             "pointwise algebra of Add/Mul/Pow nodes, time covariance = state x time product with the selected columns, "
-            "inactive dimensions irrelevant, diag = diagonal, PSD for Linear and closure under +, +c, *c, column selection. "
+            "inactive dimensions irrelevant, diag = diagonal, Gram PSD for ExpQuad/Linear expressions (closure under +, *, natural powers, "
+            "non-negative scalars, column selection). "
             "Tied to /repo by running cov(x,y)/diag on the implementation and on the model's executable definitions and by "
             "an independent interval closed-form oracle.",
-    "note": "Gram PSD of the five stationary kernels (Bochner/Schoenberg) and of products/powers is not in Mathlib: named "
-            "hypothesis PSDKernel, exercised numerically only. Float64 rounding/underflow modelled away (k>0 checked as k>=0). "
+    "note": "Gram PSD: proved for ExpQuad (exp of a PSD kernel via its power series and the Schur product theorem), Linear, "
+            "and closed under +, *, natural powers, non-negative scalars and active_dims (gram_psd_of_tree); the Matern / "
+            "Exponential / RatQuad leaves need Bochner/Schoenberg, not in Mathlib: named hypothesis, exercised numerically. Float64 rounding/underflow modelled away (k>0 checked as k>=0). "
             "Correspondence is sampled differential testing.",
     "technique": "Lean 4 proof (structural induction over kernel syntax, real analysis of radial profiles) + differential "
                  "correspondence with interval oracle",
